@@ -1,0 +1,13 @@
+// +build verif
+
+package hashing
+
+// Contracts for the verifier in /verif (comment-only).
+
+/*@
+func Hasher.Salted
+  modifies everything
+func Hasher.Do
+  modifies everything
+func Hasher.Len
+@*/
